@@ -201,6 +201,13 @@ def direct_cases():
     for q in ('30 mL', '0.2 L', '21 g', '20.6 mL', '20.0005 mL' if False else '25 g', '2 mol'):
         for solvent in ('water', 'dmso', 'lipase'):          # (an enzyme as the filler: it has a density in U/mL)
             acts.append({'op': 'fill_to', 'obj': 'K', 'solvent': solvent, 'q': q})
+    # amounts at the edges of the human-readable scale: just below a power of 1000 (they ROUND up to 1000 of the smaller unit),
+    # exactly on it, and just above it - into an empty vessel, so that the amount added is the amount written
+    for q in ('999.7 uL', '999.4 uL', '1000 uL', '1 mL', '1000.4 uL', '999.97 mL', '0.9999996 L', '999.6 nL', '0.99996 mL', '1000 mL',
+              '999.7 mg', '999.96 ug'):
+        for solvent in ('water', 'dmso'):
+            acts.append({'op': 'fill_to', 'obj': 'D', 'solvent': solvent, 'q': q})
+        acts.append(T('L', 'D', q))
     for kw in ({'concentration': '0.5 M', 'total_quantity': '100 mL'}, {'concentration': '1 mM', 'total_quantity': '2 mL'},
                {'quantity': '3 mg', 'total_quantity': '500 uL'}, {'concentration': '0.02 g/g', 'quantity': '1.5 g'},
                {'concentration': '5 %w/v', 'total_quantity': '10 mL'}):
